@@ -65,9 +65,10 @@ AlgoRun(e) == PipeRun(e.cs, e.B, <<(e.n - 1) * e.cs + e.last>>)
 TreeNotes(e) ==
   IF WithinCapacity(e)
   THEN    Note("stores_exactly_the_tree_chunks_children_first", e.puts = FormatRecs(ScaledTree(e), 32))
-       \o Note("writer_algorithm_model_predicts_puts",
-               LET a == AlgoRun(e) IN a.err = "" /\ e.puts = RecsOfTerms(a.h.out, 32))
-  ELSE Note("trie_full_is_reported_beyond_capacity", e.err = "write: trie full")
+       \o (IF e.n > 300 THEN <<>>             \* the literal buffer/cursor model is only replayed on small trees
+           ELSE Note("writer_algorithm_model_predicts_puts",
+                     LET a == AlgoRun(e) IN a.err = "" /\ e.puts = RecsOfTerms(a.h.out, 32)))
+  ELSE Note("trie_full_is_reported_beyond_capacity", e.err \in {"write: trie full", "sum: trie full"})
 
 (***************************************************************************)
 (* reads                                                                   *)
